@@ -11,7 +11,9 @@ EXPLANATION = (
     "decremented once and `== 0` returns Ok(false) with no call and no further iteration; Interrupted returns at once; (final) Work::run's normal result is "
     "tasks_failed == 0 && !was_interrupted() and every continuing Failure increments the counter; (exit) both Work::run sites in run::build turn `false` into "
     "an immediate Ok(None), run_impl maps None to a non-zero code, every Err reaches main's `n2: error: ` arm with code 1, and main exits with every "
-    "non-zero code; (failed-stays-failed) no transition leaves Failed (C01.sites relation). Decides these clauses, not the liveness clause "
+    "non-zero code; (failed-stays-failed) no transition leaves Failed (C01.sites relation); (table) BuildStates::set releases the pool slot exactly when "
+    "a step leaves Running (also into Failed) and the pending count exactly on Done/Failed, for all 98 inputs, so a failure cannot starve unrelated steps. "
+    "Decides these clauses, not the liveness clause "
     "(`every wanted step not downstream of a failure is still brought up to date`)."
 )
 ASSUMPTIONS = ["liveness under partial failure is not decided", "unwind paths are not explored", "cfg(windows) process runner is not analysed (Linux configuration)"]
@@ -19,6 +21,11 @@ THOROUGH_CONFIGS = ["nodefault"]
 
 
 def run(ck, ctx):
+    # a failed command must give back its pool slot and its pending count, or steps that are not
+    # downstream of the failure can never run
+    from . import statemachine as SM
+    SM.eff_table(ck, ctx, ["running+", "running-", "pending+", "pending-"])
+    ck.extra["exhaustive_subrule"] = "table: all 98 abstract inputs of BuildStates::set enumerated"
     R01.success_only(ck, ctx)
     RL.termination_ctors(ck, ctx, "ctor")
     RL.budget(ck, ctx, "budget")
